@@ -75,6 +75,11 @@ def cases(tier, seed):
     if tier == 'quick':
         # every kind of structure, but only a third of the pair/triple blocks
         progs = [p for i, p in enumerate(progs) if i % 3 == 0 or i >= 165]
+    # a choice block invoked at two call sites working at DIFFERENT resolutions (second invocation behind a 2x2 pooling)
+    pre = {'op': 'conv', 'cout': 4}
+    progs = progs + [{'cin': 3, 'size': 6, 'stages': [pre, GS.block(['c3', 'id'], twice='pool')], 'head': 'flatlin'},
+                     {'cin': 3, 'size': 6, 'stages': [pre, GS.block(['c3', 'c1', 'seq'], twice='pool')], 'head': 'gaplin'},
+                     {'cin': 3, 'size': 6, 'stages': [pre, GS.block(['blk', 'dw'], twice='pool'), GS.block(['c1', 'c3'])], 'head': 'flatlin'}]
     return [{'prog': p, 'tier': tier} for p in progs]
 
 
@@ -222,6 +227,15 @@ def run_case(case, seed):
     def read_thetas():
         return [m.theta_alpha.detach().clone() for _, m in combs]
 
+    two_res = any(st.get('op') == 'sn' and st.get('twice') == 'pool' for st in prog['stages'])
+
+    def d45_prediction(full, thetas):
+        """ops value if every invocation of a block were charged the output shape of its FIRST invocation (D45)"""
+        pred = fixed['ops'] if full else 0.0
+        for bn, th in zip(bnames, thetas):
+            pred += sum(float(t) * br['ops_per_call'][0] * blocks[bn]['calls'] for t, br in zip(th, blocks[bn]['branches']))
+        return pred
+
     def compare(got, binding, full, thetas, label, tag):
         """got: {name: value}; binding: [(name, metric)]; the oracle of the property, the same for every step of every protocol"""
         sfx = '' if tag is None else '/proto=' + tag
@@ -238,6 +252,18 @@ def run_case(case, seed):
             where = '' if tag is None else f' [protocol step {tag}]'
             ok, why = tol.cost_close(got[name], want)
             if not (abs(got[name] - want) <= 1e-3 + 2e-5 * max(abs(want), 1)):
+                # D45 (listed): a choice block invoked at TWO RESOLUTIONS under a per-invocation metric: the combiner keeps the fx nodes of the
+                # first call site only, so every call is charged the first call's output shape.  Structural predicate (such a block, metric ops)
+                # AND causal one (the value equals what "every call costs what the first one costs" predicts)
+                d45 = False
+                if metric == 'ops' and two_res:
+                    pred = d45_prediction(full, thetas)
+                    d45 = abs(got[name] - pred) <= 1e-3 + 2e-5 * max(abs(pred), 1)
+                if d45:
+                    add('cost-not-weighted-mix', 'cost-not-weighted-mix/ops/block-invoked-at-two-resolutions-charged-first-resolution-twice',
+                        f'{what}={got[name]} but sum_i theta_i*cost_i (+fixed) = {want}: every invocation of the block is charged the output shape of '
+                        f'the FIRST one{where}', label)
+                    continue
                 add('cost-not-weighted-mix', f'cost-not-weighted-mix/{metric}/full={int(full)}' + sfx,
                     f'{what}={got[name]} but sum_i theta_i*cost_i (+fixed) = {want} '
                     f'(theta={[[round(float(t), 4) for t in th] for th in thetas]}){where}', label)
@@ -350,6 +376,11 @@ def run_case(case, seed):
                                     for metric in ('params', 'ops'):
                                         res['evals'] += 1
                                         if abs(got[metric] - r[metric]) > 1e-3 + 2e-5 * abs(r[metric]):
+                                            if metric == 'ops' and two_res and abs(got[metric] - d45_prediction(full, thetas)) <= 1e-3 + 2e-5 * abs(got[metric]):
+                                                add('hard-cost-differs-from-export', 'hard-cost-differs-from-export/ops/block-invoked-at-two-resolutions-charged-first-resolution-twice',
+                                                    f'hard selection, full_cost: get_cost(ops)={got[metric]} but the exported network costs {r[metric]}: every invocation '
+                                                    f'of the block is charged the output shape of the FIRST one', label)
+                                                continue
                                             add('hard-cost-differs-from-export', f'hard-cost-differs-from-export/{metric}' + ('' if tag is None else '/proto=' + tag),
                                                 f'hard selection, full_cost: get_cost({metric})={got[metric]} but the exported network costs {r[metric]}', label)
                                 except Exception as e:
